@@ -1806,7 +1806,16 @@ func (a *Agent) TaskPrepare(Command int, Info any, Message *map[string]string, C
 					SocksHeader       socks.SocksHeader
 					err               error
 					SocketId          int32
+					Registered        = false
 				)
+
+				// a connection that does not make it into the client table (refused, unreadable,
+				// gone) is ours to terminate: rfc 1928 wants it closed after a failure reply
+				defer func() {
+					if !Registered {
+						_ = conn.Close()
+					}
+				}()
 
 				// parse all the methods supported by the client
 				NegotiationHeader, err = socks.SubNegotiationClient(conn)
@@ -1843,6 +1852,11 @@ func (a *Agent) TaskPrepare(Command int, Info any, Message *map[string]string, C
 				SocksHeader, err = socks.ReadSocksHeader(conn)
 				if err != nil {
 					logger.Error("Failed to read socks header: " + err.Error())
+					if errors.Is(err, socks.ErrAddressTypeNotSupported) {
+						if err = socks.SendAddressTypeNotSupported(conn); err != nil {
+							logger.Error("Failed to send response to socks client: " + err.Error())
+						}
+					}
 					return
 				}
 
@@ -1874,6 +1888,7 @@ func (a *Agent) TaskPrepare(Command int, Info any, Message *map[string]string, C
 				s.Clients = append(s.Clients, SocketId)
 
 				a.SocksClientAdd(SocketId, conn, SocksHeader.ATYP, SocksHeader.IpDomain, SocksHeader.Port)
+				Registered = true
 
 				/* now parse the host:port and send it to the agent. */
 				ConnectJob = Job{
